@@ -354,6 +354,60 @@ def run(ctx):
                 pass
         if len(fails) > 8:
             break
+    # ---- large triangles (hundreds of cells, long sample arrays): size-triggered fast paths, chunked comparisons,
+    # sampled hashes only engage here.  Equal copies must be equal; ONE edit anywhere (first / middle / last cell,
+    # first / middle / last sample of a long array) must be detected.
+    for i in range(4 if ctx.quick else 24):
+        t, info = g.triangle(n_slices=g.r.randint(2, 4), n_periods=g.r.randint(8, 12), n_lags=g.r.randint(8, 12),
+                             values=g.r.choice(["int", "arr_float"]), n_samples=g.r.choice([3, 257, 1200]), layout="regular")
+        cells = list(t.cells)
+        if len(cells) < 100:
+            continue
+        ctx.hist("large:%d+ cells" % (100 * (len(cells) // 100)))
+        perm = cells[:]
+        g.r.shuffle(perm)
+        eqs = [("large-permuted", Triangle(perm)), ("large-rebuilt", Triangle([rebuild(c) for c in cells]))] + serial_variants(t, "(large)")
+        for name, v in eqs:
+            ctx.count(evaluations=1, traces=1)
+            if not (t == v and v == t) or hash(t) != hash(v):
+                fails.append((f"{name}: equal copy of a {len(cells)}-cell triangle is unequal or hashes differently", t, v))
+        # membership and the Set operators on a large triangle that also holds a restated cell
+        c0 = cells[g.r.randrange(len(cells))]
+        tr = Triangle(cells + [rebuild(c0, values={k: (v + 1 if isinstance(v, (int, float)) and not isinstance(v, bool) else v)
+                                                    for k, v in c0.values.items()})])
+        ctx.count(evaluations=len(tr), traces=1)
+        miss = [c for c in tr.cells if c not in tr]
+        if miss or not (tr <= tr) or len(tr - tr) != 0 or len(tr & tr) != len(tr):
+            fails.append((f"large: {len(miss)} of {len(tr)} own cells are reported as not `in` the triangle / t <= t, t - t, t & t wrong "
+                          f"(triangle with one restated cell)", tr, tr))
+        # long integer sample arrays of large magnitude against their float copies: equal, so equal hashes
+        big = np.array([g.r.randrange(10**12, 4 * 10**12) | 1 for _ in range(g.r.choice([10000, 50000]))], dtype=np.int64)
+        ca = rebuild(cells[0], values={"paid_loss": big})
+        cb = rebuild(cells[0], values={"paid_loss": big.astype(np.float64)})
+        ctx.count(evaluations=1, traces=1)
+        if not (ca == cb) or hash(ca) != hash(cb) or hash(Triangle([ca])) != hash(Triangle([cb])):
+            fails.append(("large: 10000 int64 samples of magnitude 3e12 vs their float64 copy: equal but hashes differ (or unequal)",
+                          Triangle([ca]), Triangle([cb])))
+        for pos in (0, len(cells) // 2, len(cells) - 1, g.r.randrange(len(cells))):
+            c = cells[pos]
+            k0 = next(iter(c.values))
+            v0 = c.values[k0]
+            if isinstance(v0, np.ndarray):
+                for j in (0, len(v0) // 2, len(v0) - 1):
+                    v2 = v0.copy()
+                    v2[j] += 1
+                    tv = Triangle(cells[:pos] + [rebuild(c, values={**c.values, k0: v2})] + cells[pos + 1:])
+                    ctx.count(evaluations=1, traces=1)
+                    if t == tv or tv == t:
+                        fails.append((f"large: edit of sample {j} of {len(v0)} in cell {pos} of {len(cells)} not detected by ==", t, tv))
+            elif v0 is not None:
+                tv = Triangle(cells[:pos] + [rebuild(c, values={**c.values, k0: v0 + 1})] + cells[pos + 1:])
+                ctx.count(evaluations=1, traces=1)
+                if t == tv or tv == t:
+                    fails.append((f"large: edit of cell {pos} of {len(cells)} not detected by ==", t, tv))
+            tv = Triangle(cells[:pos] + cells[pos + 1:])
+            if t == tv or tv == t or (tv <= t) is not True or (t <= tv) is not False:
+                fails.append((f"large: dropping cell {pos} of {len(cells)}: ==/<= wrong", t, tv))
     # ---- exhaustive small universe: ==, <=, &, -, isdisjoint on all pairs; transitivity on all triples
     uni_fail = []
     n_uni = 4 if ctx.quick else 12
